@@ -158,6 +158,19 @@ def oracle(c, o):
             want = deliveries.get(owner)
         if want is not None and u[1] != want:
             return [dict(clause="completion hooks run at the instant the event/process finishes", hook=u, finish=want)]
+    # ... and exactly once means at least once: every hook of an event whose handling finished has run
+    if o["status"] == 0:
+        crashed_targets = '"crash"' in __import__("json").dumps(c["prog"])
+        for hid, owner in o["hid_owner"].items():
+            if owner is None or crashed_targets:
+                continue
+            done = finished.get(ev_pid[owner]) if owner in ev_pid else deliveries.get(owner)
+            if done is None:
+                continue
+            ran = sum(1 for u in ulog if u[0] == "hook" and str(u[2]) == hid)
+            if ran != o["hid_count"].get(hid, ran):
+                return [dict(clause="completion hooks take effect exactly once, at the instant the event/process finishes (a hook never ran)",
+                             hook_list=hid, owner_event_seq=owner, finished_at=done, hooks=o["hid_count"].get(hid), ran=ran)]
     return []
 
 
